@@ -9,6 +9,9 @@ BODIES = [
     "call a(*10, b)\n10 continue", "call a ( )", "call a%b ( 1 )",
     # function references with empty argument lists, nested designators
     "x = f()", "x = a%f()", "x = a(1)%f()", "x = a(1)%b(2)%f() + g()", "x = f(g())", "x = f(a(1)%b)",
+    # a unary operator in front of an intrinsic reference, with and without the blank
+    "x = - sin(y)", "x = -sin(y)", "l = .not. present(b)", "l = .not.present(b)", "n = - size(a, dim=1)",
+    "x = + abs(y) - (- max(a, b))", "if (.not. allocated(a)) x = - huge(1)", "x = .myop. sin(y)", "x = -  f(y) ** (- 2)",
     "x = a(1:2)%b", "x = a%b(1:2)", "x = s(1:2)(3:4)", "x = 'abc'(1:2)", "x = a(i)(1:2)", "x = [a(1)%b, c]",
     # I/O with minimal and maximal control lists
     "write(*,*)", "read(*,*)", "print *", "print *, a", "print 10\n10 format (a)", "write(6, 10)\n10 format ()",
@@ -59,7 +62,7 @@ BODIES = [
     "use m, only: assignment(=)", "import", "import a", "import :: a, b",
     "type t\nend type", "type t\nend type t", "type :: t\ninteger i\nend type", "type, public :: t\nend type",
     "type, extends(b) :: t\nend type", "type, abstract :: t\nend type", "type, bind(c) :: t\nend type",
-    "type t\nsequence\ninteger i\nend type", "type t\nprivate\ninteger i\nend type", "type t(k)\ninteger, kind :: k\nend type",
+    "type t\nsequence\ninteger i\nend type", "type t\nprivate\ninteger i\nend type", "type t(k)\ninteger, kind :: k\nend type", "type t(k)\ninteger u, kind :: k\nend type", "type t(k, l)\ninteger(4), kind :: k\ninteger, len :: l = 2\nend type",
     "type t\ncontains\nprocedure p\nend type", "type t\ncontains\nprocedure :: p\nprocedure, nopass :: q => r\nend type",
     "type t\ncontains\nprivate\nprocedure p\ngeneric :: g => p\nfinal :: f\nend type",
     "type t\ncontains\nprocedure(i), deferred :: p\nend type", "type t\nprocedure(), pointer, nopass :: p\nend type",
